@@ -50,6 +50,9 @@ func (ft Features) key(r *rand.Rand, group bool) string {
 		if pick(r, 0.25) {
 			g = "h"
 		}
+		if pick(r, 0.1) {
+			g = "g " // a different group: names are exact strings, blanks included
+		}
 		return t + "@" + g
 	}
 	if pick(r, ft.PNamed) {
